@@ -450,6 +450,12 @@ class LmtpClient(Client):
 
         return lhlo
 
+    def mailfrom(self, *args, **kwargs):
+        # A new transaction starts without recipients, also when the
+        # previous one was abandoned without RSET.
+        self.rcpttos = []
+        return super(LmtpClient, self).mailfrom(*args, **kwargs)
+
     def rcptto(self, address):
         reply = super(LmtpClient, self).rcptto(address)
         self.rcpttos.append((address, reply))
